@@ -23,6 +23,18 @@ def build(tier):
     return groups, meta
 
 
+def replay(g, o, assigns, path):
+    """Skeleton counterexamples are paths, not inputs: the replay searches the structured family of real inputs/histories of
+    replay_src/solver_replay.cpp (mode 'history') on the REAL solvers."""
+    from vlib import replay as RP
+    r = RP.run_native(PROP, RP.src("solver_replay.cpp"), args=["history"], timeout=900)
+    if not r.get("reproduced"):
+        r2 = RP.run_native(PROP, RP.src("C02_cshift_pairs_replay.cpp"), args=[2], timeout=600, name="replay2")
+        if r2.get("reproduced"):
+            return r2
+    return r
+
+
 MANIFEST = {
     "category": "proof",
     "text": 'Proof on the extracted skeleton: from ANY object state (arbitrary buffer sizes, counters, flags, factorization) init(v) establishes the canonical state - buffers re-sized, flags cleared, counters zeroed, step-1 factorization stamped with this init - and compute() reads only data stamped at or after that init; hence init(v);compute(args) is a function of (operator, nev, ncv, v, args) under the stated determinism assumption on Eigen and the operator.',
